@@ -233,7 +233,10 @@ class Calls:
         ex.cur_fnode = decl
         ex.loops.enter_function(ex, decl)
         rt = ex.shapes.of(ret_type(decl)) if decl.get('kind') != 'CXXConstructorDecl' else ('void',)
-        ex.ret_is_ref.append(rt[0] == 'ref')
+        isref = rt[0] == 'ref'
+        if n is not None and n.get('kind') in ('CallExpr', 'CXXMemberCallExpr', 'CXXOperatorCallExpr'):
+            isref = n.get('valueCategory') in ('lvalue', 'xvalue')
+        ex.ret_is_ref.append(isref)
         try:
             try:
                 if decl.get('kind') == 'CXXConstructorDecl':
@@ -273,11 +276,19 @@ class Calls:
             if ex.decide(b):
                 raise ThrowSignal()
         self.havoc_assigns(ex, c, this_path, names)
+        for fld, tgt in c.binds.items():
+            ex.write(this_path.field(fld), RefVal(self.bind_target(ex, tgt, names, this_path)))
         # result
         if decl.get('kind') == 'CXXConstructorDecl':
             result = None
         else:
             rt = ex.shapes.of(ret_type(decl))
+            if n is not None and n.get('kind') in ('CallExpr', 'CXXMemberCallExpr', 'CXXOperatorCallExpr'):
+                vsh = ex.shapes.of_node(n)
+                if n.get('valueCategory') in ('lvalue', 'xvalue'):
+                    rt = ('ref', vsh)
+                elif vsh[0] != 'opaque':
+                    rt = vsh
             if rt[0] == 'ref':
                 rr = getattr(c, 'returns_ref', None) or c.extra_env.get('__returns_ref__')
                 if rr is None:
@@ -298,6 +309,13 @@ class Calls:
         for lab, e in c.ensures:
             ex.assume(S.spec_eval(e, env_post, ex2))
         return result
+
+    def bind_target(self, ex, tgt, names, this_path):
+        parts = tgt.split('.')
+        p = this_path if parts[0] == 'this' else names[parts[0]]
+        for f in parts[1:]:
+            p = p.field(f)
+        return ex.resolve(p)
 
     def havoc_assigns(self, ex, c, this_path, names, exc=False):
         for a in c.assigns:
